@@ -268,6 +268,7 @@ fn enumerate_times(depth: usize, mut emit: impl FnMut(&[e3_times::Op])) {
                 let alive2 = match o {
                     e3_times::Op::Begin => true,
                     e3_times::Op::End | e3_times::Op::Panic => false,
+                    e3_times::Op::Build => alive,
                     // a propagating call may or may not end the lifetime; the harness decides at run
                     // time, so for enumeration treat Mu/Xu as "stays alive" and let run_history cut
                     // the rest of the lifetime when the panic propagates
